@@ -34,7 +34,7 @@ TamperChoice(pf, impl) ==
           {[op |-> "drop", i |-> i] : i \in R(idx)},
           {[op |-> o, i |-> i, mode |-> md] : o \in R({"l:=junk", "r:=junk", "l:=r", "r:=l", "swap", "c:=junk"}), i \in R(idx), md \in R(Modes)},
           {[op |-> o, i |-> i, mode |-> md] : o \in R({"flip", "short", "long"}), i \in R(idx), md \in R(Modes)},
-          {[op |-> o, i |-> i, mode |-> md] : o \in R({"retype-l", "retype-r", "retype-c"}), i \in R(idx), md \in R({"keep", "mem"})},
+          {[op |-> o, i |-> i, mode |-> md] : o \in R({"retype-l", "retype-r", "retype-c"}), i \in R(idx), md \in R({"keep"})},
           {[op |-> o, i |-> i, mode |-> md] : o \in R({"l:=junk", "r:=junk", "c:=junk"}), i \in (idx \cap {Len(pf)}), md \in R(Modes)},
           {[op |-> "otherkey", k2 |-> k2] : k2 \in R(Keys \cup Near)},
           {[op |-> "leaf-rehash"]} }
